@@ -16,6 +16,7 @@
    is native-endian; the model is little-endian (amd64/arm64). *)
 From Coq Require Import List NArith ZArith Bool.
 Import ListNotations.
+Require Import BS.Common.Util BS.Gen.C05_params.
 Local Open Scope N_scope.
 
 (* ------------------------------------------------------------------ uint32 *)
@@ -101,8 +102,19 @@ Inductive kval : Type :=
 | VInt (x : Z) | VInt8 (x : Z) | VInt16 (x : Z) | VInt32 (x : Z) | VInt64 (x : Z)
 | VFloat32 (bits : N) | VFloat64 (bits : N).
 
+(* Float keys: the code hashes math.Float32bits(x+0) / Float64bits(x+0); x+0 turns
+   -0.0 (only the sign bit set) into +0.0 and leaves every other non-NaN value
+   unchanged. [norm = false] is the former code, which hashed the bits of x. *)
+Definition fnorm32 (norm : bool) (bits : N) : N :=
+  if norm && N.eqb bits 2147483648 then 0 else bits.
+Definition fnorm64 (norm : bool) (bits : N) : N :=
+  if norm && N.eqb bits 9223372036854775808 then 0 else bits.
+
+(* read from the source by goparams: is the argument of Float32bits/Float64bits `slice[i]+0`? *)
+Definition float_norm : bool := float_hash_normalises_zero.
+
 (* Ops.HashWithSeed(i, seed) of the column type, on the value at index i *)
-Definition hash_val (seed : N) (v : kval) : N :=
+Definition hash_val_gen (norm : bool) (seed : N) (v : kval) : N :=
   match v with
   | VString bs => sum32 bs seed                     (* murmur3.Sum32WithSeed([]byte(s), seed) *)
   | VBytes bs => sum32 bs seed
@@ -119,9 +131,33 @@ Definition hash_val (seed : N) (v : kval) : N :=
   | VInt16 x => hash32 (u32_of_Z x) seed
   | VInt32 x => hash32 (u32_of_Z x) seed
   | VInt64 x => hash64 (u64_of_Z x) seed
-  | VFloat32 bits => hash32 (w32 bits) seed
-  | VFloat64 bits => hash64 (w64 bits) seed
+  | VFloat32 bits => hash32 (fnorm32 norm (w32 bits)) seed
+  | VFloat64 bits => hash64 (fnorm64 norm (w64 bits)) seed
   end.
+
+Definition hash_val : N -> kval -> N := hash_val_gen float_norm.
+
+(* ---- key equality as Go's == on the column type (NaN is outside the property);
+        +0.0 == -0.0 although their bit patterns differ ---- *)
+Definition bytes_eqb := list_eqb N.eqb.
+Definition fzero32 (b : N) : bool := let x := w32 b in N.eqb x 0 || N.eqb x 2147483648.
+Definition fzero64 (b : N) : bool := let x := w64 b in N.eqb x 0 || N.eqb x 9223372036854775808.
+
+Definition kval_eqb (a b : kval) : bool :=
+  match a, b with
+  | VString x, VString y => bytes_eqb x y
+  | VBytes x, VBytes y => bytes_eqb x y
+  | VBool x, VBool y => Bool.eqb x y
+  | VUnit, VUnit => true
+  | VUint x, VUint y | VUint8 x, VUint8 y | VUint16 x, VUint16 y
+  | VUint32 x, VUint32 y | VUint64 x, VUint64 y | VUintptr x, VUintptr y => N.eqb x y
+  | VInt x, VInt y | VInt8 x, VInt8 y | VInt16 x, VInt16 y
+  | VInt32 x, VInt32 y | VInt64 x, VInt64 y => Z.eqb x y
+  | VFloat32 x, VFloat32 y => N.eqb x y || (fzero32 x && fzero32 y)
+  | VFloat64 x, VFloat64 y => N.eqb x y || (fzero64 x && fzero64 y)
+  | _, _ => false
+  end.
+Definition key_eqb : list kval -> list kval -> bool := list_eqb kval_eqb.
 
 Notation key := (list kval) (only parsing).
 
@@ -245,4 +281,5 @@ Arguments sum32 : simpl never.
 Arguments hash32 : simpl never.
 Arguments hash64 : simpl never.
 Arguments hash_val : simpl never.
+Arguments hash_val_gen : simpl never.
 Arguments key_hash : simpl never.
